@@ -313,6 +313,35 @@ def make_op(rng, tag, tfiles):
             'setlike': True}
 
 
+def twin_of(op, rng):
+    """The same operation on the same input with other parameters: whatever
+    the code remembers about one must not leak into the other."""
+    t = copy.deepcopy(op)
+    if op['k'] == 'trans' and op['names'] == ['mark_heads_by_rules']:
+        t['params']['mark_heads_preset'] = \
+            'ptb' if op['params']['mark_heads_preset'] == 'negra' else 'negra'
+    elif op['k'] == 'trans' and op['names'] == ['negra_mark_heads',
+                                                 'binarize']:
+        t['params'] = {} if op['params'] else {'bare_bin_labels': True}
+    elif op['k'] in ('write', 'write_many'):
+        if 'gf' in t['opts']:
+            del t['opts']['gf']
+        else:
+            t['opts']['gf'] = True
+    elif op['k'] == 'read' and not op.get('gz'):
+        if 'gf_split' in t['opts']:
+            del t['opts']['gf_split']
+        else:
+            t['opts']['gf_split'] = True
+    elif op['k'] == 'grammar' and op.get('mode') is not None:
+        t['mode'] = {'v': 2, 'h': 1} if op['mode'] != {'v': 2, 'h': 1} \
+            else {'v': 1, 'h': 2}
+        t['tag'] = op['tag'] + 't'
+    else:
+        return None
+    return t
+
+
 def fresh(ctx, op, hashseed):
     opfile = ctx.path('.op.json')
     with open(opfile, 'w') as f:
@@ -365,10 +394,16 @@ def run_session(ctx, si, rng):
     tfiles = {'tf_A.txt': [[1, 2, 'EINS', 'XA'], [2, 1, 'ZWEI', 'XB']],
               'tf_B.txt': [[1, 1, 'ONE', 'YA'], [1, 3, 'THREE', 'YB']]}
     pool = [make_op(rng, 'p%d' % i, tfiles) for i in range(10)]
+    for op in list(pool):
+        t = twin_of(op, rng)
+        if t is not None and len(pool) < 14:
+            op['twin'] = t['twin'] = True
+            pool.append(t)
     length = ctx.pick(25, 40)
     seq = [rng.randrange(len(pool)) for _ in range(length)]
     outputs = {}
     positions = {}
+    suspect = []
     base_state = global_state(R)
     ctx.hook('global state snapshots')
     for pos, pi in enumerate(seq):
@@ -393,10 +428,12 @@ def run_session(ctx, si, rng):
         ctx.hook('global state snapshots')
         changed = state_diff(base_state, st)
         if changed:
-            ctx.fail('C18:global-state-changed:' + changed[0].split('.')[0]
-                     + '.' + changed[0].split('.')[1], case,
-                     'after operation %d (%s): %r' % (pos, op_shape(op),
-                                                      changed[:4]))
+            # New module-level state is a lead, not a verdict: a correct
+            # cache changes nothing a user can see.  The session widens its
+            # behavioural probes instead (every operation is re-run at the
+            # end and compared with a fresh process).
+            suspect.extend(c for c in changed if c not in suspect)
+            ctx.stratum('module-level state changed: probes widened')
             base_state = st
         if pi in outputs:
             if out != outputs[pi]:
@@ -420,6 +457,17 @@ def run_session(ctx, si, rng):
                          'transformed (%s) and written: %s | without the '
                          'other reader call: %s'
                          % (op['names'], str(out)[:300], str(alone)[:300]))
+            streamed = norm(c18_ops.execute(
+                R, dict(copy.deepcopy(op), b=None, stream=True), tmp, set()))
+            ctx.hook('pipeline streamed and from a list')
+            if str(streamed).split('|other|')[0] != \
+                    str(alone).split('|other|')[0]:
+                ctx.fail('C18:result-depends-on-reading-ahead:'
+                         + '+'.join(op['names']), case,
+                         'each tree transformed (%s) and written as soon as '
+                         'it is read: %s | after the whole file has been '
+                         'read: %s' % (op['names'], str(streamed)[:300],
+                                       str(alone)[:300]))
             if op['b'].get('fmt') and out[:1] != ['EXCEPTION']:
                 solo = norm(c18_ops.execute(
                     R, {'k': 'pipeline', 'a': op['b'], 'names': [],
@@ -442,11 +490,29 @@ def run_session(ctx, si, rng):
                 ctx.fail('C18:interleaved-readers-interfere', case,
                          'two readers advanced alternately give %s, read '
                          'separately %s' % (str(out)[:300], str(singles)[:300]))
+    if suspect:
+        # every operation once more, in pool order, after the whole history
+        for pi in sorted(outputs):
+            again = norm(c18_ops.execute(R, copy.deepcopy(pool[pi]), tmp,
+                                         set()))
+            ctx.hook('session operations')
+            if again != outputs[pi]:
+                ctx.fail('C18:history-dependent-output:' + op_shape(pool[pi]),
+                         {'kind': 'session', 'pool': pool, 'seq': seq,
+                          'focus': pi},
+                         'operation %s gives a different result when '
+                         'repeated at the end of the session (module state '
+                         'that changed: %r): %s vs %s'
+                         % (op_shape(pool[pi]), suspect[:3],
+                            str(again)[:300], str(outputs[pi])[:300]))
     # fresh-process references
     chosen = sorted(outputs)
     rng.shuffle(chosen)
-    for pi in chosen[:ctx.pick(3, 4)]:
-        for hs in ([0] if ctx.quick() else [0, 1]) + \
+    # the two members of a twin pair (same input, other parameters) first
+    twins = [pi for pi in chosen if pool[pi].get('twin')]
+    chosen = twins[:2] + [pi for pi in chosen if pi not in twins[:2]]
+    for pi in chosen[:len(chosen) if suspect else ctx.pick(3, 4)]:
+        for hs in ([0] if ctx.quick() or suspect else [0, 1]) + \
                 [rng.choice([1, 7, 12345, 'random'])]:
             out, err = fresh(ctx, pool[pi], hs)
             case = {'kind': 'fresh', 'op': pool[pi], 'hashseed': hs}
@@ -459,6 +525,9 @@ def run_session(ctx, si, rng):
                          'in the session: %s | alone in a fresh process '
                          '(PYTHONHASHSEED=%s): %s'
                          % (str(outputs[pi])[:300], hs, str(out)[:300]))
+    if suspect:
+        ctx.notes.append('module-level state changed during a session (%s); '
+                         'judged by behaviour only' % ', '.join(suspect[:4]))
     for pi, op in enumerate(pool):
         ctx.case(op, nontrivial=len(positions.get(pi, [])) >= 2)
     if si < 2:
